@@ -30,8 +30,10 @@ STAMP_RE = re.compile(r'^ ?(Simulation Date|Simulation Time|Calculation Time): .
 # --------------------------------------------------------------------------------------
 # template
 # --------------------------------------------------------------------------------------
-def template_init(j=0):
+def template_init(j=0, refserver=False):
     os.environ.setdefault('MPLBACKEND', 'Agg')
+    if not refserver and os.environ.get('DSIM_NO_REFSERVER') != '1':
+        _start_ref_server()      # (first, so that it imports the repository while this process does)
     if not os.environ.get('VERIF_DEBUG'):
         dn = os.open(os.devnull, os.O_WRONLY)
         os.dup2(dn, 1)
@@ -81,6 +83,8 @@ def template_init(j=0):
     _state['provided_sensitive'] = HW.provided_sensitive()
     HW.add_default_tweaks(_state['provided_sensitive'])
     _state['pkg_listing'] = None
+    if _state.get('refsrv') is not None:
+        _ref_via_server(None)
 
 
 class SimSet(set):
@@ -136,8 +140,79 @@ def sha(s):
 
 
 # --------------------------------------------------------------------------------------
-# pristine reference: the request content run alone, in a process forked before any operation ran
+# pristine reference: the request content run alone in a fresh process - forked from an import-only *reference server* that was
+# exec'ed under ANOTHER PYTHONHASHSEED than the process the history runs in.  Every comparison with the reference is therefore
+# also a comparison across hash seeds ("... or under a different hash seed gives numerically identical results"); when the two
+# differ, the same content is run once more in a process forked from the history's own interpreter (same hash seed) to tell a
+# dependence on the hash seed from a dependence on the history.
 # --------------------------------------------------------------------------------------
+def other_hash_seed():
+    return '12345' if os.environ.get('PYTHONHASHSEED') != '12345' else '0'
+
+
+def _start_ref_server():
+    import subprocess
+    env = dict(os.environ, PYTHONHASHSEED=other_hash_seed(), DSIM_REEXEC='1', DSIM_REFSERVER='1')
+    check = os.path.join(os.path.dirname(os.path.dirname(os.path.abspath(__file__))), 'check')
+    p = subprocess.Popen([sys.executable, check, 'refserver'], stdin=subprocess.PIPE, stdout=subprocess.PIPE, env=env, close_fds=True)
+    _state['refsrv'] = {'proc': p, 'w': p.stdin.fileno(), 'r': p.stdout.fileno(), 'seed': env['PYTHONHASHSEED'], 'ready': False, 'n': 0}
+
+
+def refserver_main():
+    """./check refserver: import-only template under another hash seed; one forked child per reference request"""
+    in_fd, out_fd = os.dup(0), os.dup(1)
+    template_init(refserver=True)
+    runner._send(out_fd, ('ready', os.environ.get('PYTHONHASHSEED')))
+    while True:
+        try:
+            msg = runner._recv(in_fd)
+        except EOFError:
+            break
+        if msg is None:
+            break
+        rid, args = msg
+        res = runner.run_in_child(_ref_compute, args, 240)
+        runner._send(out_fd, (rid, res))
+    return 0
+
+
+def _ref_via_server(args):
+    import select
+    srv = _state.get('refsrv')
+    if srv is None:
+        raise K.HarnessError('no reference server in this template')
+    t_end = K._real['time.monotonic']() + 300
+
+    def recv():
+        while True:
+            left = t_end - K._real['time.monotonic']()
+            if left <= 0:
+                raise K.HarnessError('reference server did not answer within 300 s')
+            rd, _, _ = select.select([srv['r']], [], [], min(left, 2.0))
+            if rd:
+                try:
+                    return runner._recv(srv['r'])
+                except EOFError:
+                    raise K.HarnessError('reference server died') from None
+    if args is None:
+        # called once by the template itself, at the end of its initialisation: wait for the server's greeting
+        kind, seed = recv()
+        if kind != 'ready' or seed != srv['seed']:
+            raise K.HarnessError(f'reference server: unexpected greeting {kind!r} {seed!r}')
+        srv['ready'] = True
+        return None
+    rid = f'{os.getpid()}-{srv["n"]}'
+    srv['n'] += 1
+    runner._send(srv['w'], (rid, args))
+    while True:
+        got = recv()
+        if got[0] == 'ready':
+            continue
+        if got[0] == rid:
+            return got[1]
+        # (an answer to a request of an earlier history child of this template that was killed while waiting: dropped)
+
+
 def _ref_compute(args):
     kind, content, refdir = args
     d = tempfile.mkdtemp(prefix='ref-', dir=refdir)
@@ -184,9 +259,40 @@ def _ref_compute(args):
         shutil.rmtree(d, ignore_errors=True)
 
 
+def post_run(rec):
+    """runs in the template (pristine, same hash seed as the history): a result that differs from the reference computed under
+    the other hash seed is compared with the same content run alone under THIS hash seed; if that gives what the history
+    got, the difference is a dependence on the hash seed, not on the history or the entry point"""
+    srv = _state.get('refsrv')
+    same = {}
+    for v in rec.get('violations') or []:
+        rc = v.pop('_recheck', None)
+        if not rc or srv is None:
+            continue
+        key = (rc['kd'], rc['txt'])
+        if key not in same:
+            same[key] = runner.run_in_child(_ref_compute, (rc['kd'], rc['txt'], os.environ.get('DSIM_REFDIR') or K.scratch_root()), 240)
+        r0 = same[key]
+        if r0.get('harness_error'):
+            rec['harness_error'] = 'same_seed_reference_failed'
+            rec['detail'] = str(r0.get('detail'))[:2000]
+            continue
+        a = rc['aspect']
+        val = r0.get('outcome') if a == 'outcome' else (sha(r0[a]) if r0.get(a) is not None else None)
+        rec.setdefault('stats', {})['same_seed_rechecks'] = rec.get('stats', {}).get('same_seed_rechecks', 0) + 1
+        if val == rc['got']:
+            v['detail'] = (f"run alone under PYTHONHASHSEED={os.environ.get('PYTHONHASHSEED')} the same content gives what this operation gave; "
+                           f"run alone under PYTHONHASHSEED={srv['seed']} it gives something else: " + v['detail'])
+            v['cause'] = f"{v['cause']}"
+            v['was'] = f"{v['property']} {v['cls']}"
+            v['property'], v['cls'] = 'C08', 'hashseed_dependent_result'
+    return rec
+
+
 def reference(kind, content, refdir, stats):
+    srv = _state.get('refsrv')
     key = sha(f'{kind}\0{content}')
-    path = os.path.join(refdir, key + '.v2.json')
+    path = os.path.join(refdir, key + f".v2.hs{srv['seed'] if srv else 'same'}.json")
     try:
         with K._real['open'](path) as f:
             stats['ref_hits'] = stats.get('ref_hits', 0) + 1
@@ -194,7 +300,11 @@ def reference(kind, content, refdir, stats):
     except (OSError, ValueError):
         pass
     stats['ref_miss'] = stats.get('ref_miss', 0) + 1
-    res = runner.run_in_child(_ref_compute, (kind, content, refdir), 240)
+    if srv is not None:
+        res = _ref_via_server((kind, content, refdir))
+        res['hash_seed'] = srv['seed']
+    else:
+        res = runner.run_in_child(_ref_compute, (kind, content, refdir), 240)
     if res.get('harness_error'):
         raise K.HarnessError(f"reference run failed: {res['harness_error']} {res.get('detail', '')[:300]}")
     tmp = path + f'.{os.getpid()}.tmp'
@@ -638,6 +748,11 @@ class Exec:
     def V(self, prop, cls, cause, detail):
         self.viol.append({'property': prop, 'cls': cls, 'cause': cause, 'detail': detail, 'op': self.ops_done})
 
+    def Vref(self, prop, cls, cause, detail, kd, txt, aspect, got):
+        """a violation judged against the reference: carries what is needed to re-judge it against a same-hash-seed reference"""
+        self.V(prop, cls, cause, detail)
+        self.viol[-1]['_recheck'] = {'kd': kd, 'txt': txt, 'aspect': aspect, 'got': got}
+
     def probe(self, name):
         self.probes[name] = self.probes.get(name, 0) + 1
 
@@ -923,20 +1038,22 @@ class Exec:
         if not fired:
             if exp['outcome'] == 'ok' and outcome != 'ok':
                 cls = 'exit_status' if entry == 'cli' else 'history_dependent_result'
-                self.V('C20' if entry == 'cli' else 'C08', cls, f'{entry}_unexpected_failure',
-                       f"{entry} run of a request that succeeds in a fresh process ended with {exc}: {getattr(self, 'exc_msg', '')}")
+                self.Vref('C20' if entry == 'cli' else 'C08', cls, f'{entry}_unexpected_failure',
+                          f"{entry} run of a request that succeeds in a fresh process ended with {exc}: {getattr(self, 'exc_msg', '')}",
+                          kd, eff, 'outcome', 'raised')
             elif exp['outcome'] != 'ok' and outcome == 'ok':
                 if served_from_cache:
                     self.V('C08', 'stale_result', 'cache_hit_for_failing_content',
                            'client returned a cached result although the current content of the request fails in a fresh process')
                 else:
                     if entry == 'cli':
-                        self.V('C20', 'exit_status', 'cli_exit_0_on_failure',
-                               f"python -m geophires_x ended with {exc or 'exit status 0'} although the simulation fails "
-                               f"({exp.get('exc')}: {exp.get('msg')})")
+                        self.Vref('C20', 'exit_status', 'cli_exit_0_on_failure',
+                                  f"python -m geophires_x ended with {exc or 'exit status 0'} although the simulation fails "
+                                  f"({exp.get('exc')}: {exp.get('msg')})", kd, eff, 'outcome', 'ok')
                     else:
-                        self.V('C08', 'history_dependent_result', f'{entry}_unexpected_success',
-                               f"{entry} run succeeded although the same content fails in a fresh process ({exp.get('exc')}: {exp.get('msg')})")
+                        self.Vref('C08', 'history_dependent_result', f'{entry}_unexpected_success',
+                                  f"{entry} run succeeded although the same content fails in a fresh process ({exp.get('exc')}: {exp.get('msg')})",
+                                  kd, eff, 'outcome', 'ok')
             elif exp['outcome'] != 'ok' and entry in ('client', 'client_params', 'hip') and exc != 'RuntimeError' \
                     and not (txt is None and entry == 'client_params'):
                 # the property does not name an exception type: counted, not judged
@@ -989,18 +1106,20 @@ class Exec:
             self.nreports += 1
             if parsed is not None and parsed != exp['parsed']:
                 cls = 'stale_result' if served_from_cache else ('clock_dependent_result' if getattr(self, 'after_clock', False) and False else 'history_dependent_result')
-                self.V('C08', cls, f'{entry}_parsed', 'parsed result differs from the same content run alone in a fresh process: ' + _first_diff(parsed, exp['parsed']))
+                self.Vref('C08', cls, f'{entry}_parsed', 'parsed result differs from the same content run alone in a fresh process: ' + _first_diff(parsed, exp['parsed']),
+                          kd, eff, 'parsed', sha(parsed))
             if report is not None:
                 cr = canon_report(report, self.sb)
                 if cr != exp['report']:
                     prop, cls = ('C20', 'entrypoint_report_diff') if entry in ('cli', 'main_argv') else ('C08', 'history_dependent_result')
-                    self.V(prop, cls, f'{entry}_report', 'report differs from the same content run alone in a fresh process: ' + _first_diff(cr, exp['report']))
+                    self.Vref(prop, cls, f'{entry}_report', 'report differs from the same content run alone in a fresh process: ' + _first_diff(cr, exp['report']),
+                              kd, eff, 'report', sha(cr))
                 self.result_digest.update(sha(cr).encode())
                 if kd == 'geo':
                     self.check_parser(report)
                     jp_ = json_path if entry in ('cli', 'main_argv') else (json_beside(result.output_file_path) if result is not None else None)
                     if jp_:
-                        self.check_json(entry, report, jp_, exp)
+                        self.check_json(entry, report, jp_, exp, kd, eff)
                 elif kd == 'hip' and result is not None and isinstance(getattr(result, 'result', None), dict):
                     self.check_hip_parser(report, result.result)
             elif parsed is not None:
@@ -1016,7 +1135,7 @@ class Exec:
             self.result_digest.update(f'{outcome}'.encode())
         # (reports stay where they were written: later operations run against a directory that already holds them)
 
-    def check_json(self, entry, report, jp, exp):
+    def check_json(self, entry, report, jp, exp, kd, eff):
         """the JSON written next to the report: the same for every entry point and history (C20 / C08), and carrying the
         quantities the report prints (C10, last clause; per-report invariant)"""
         try:
@@ -1030,8 +1149,8 @@ class Exec:
         self.parse_stats['json_files'] = self.parse_stats.get('json_files', 0) + 1
         if exp.get('json') is not None and cj != exp['json']:
             prop, cls = ('C20', 'entrypoint_report_diff') if entry in ('cli', 'main_argv') else ('C08', 'history_dependent_result')
-            self.V(prop, cls, f'{entry}_json', 'the JSON next to the report differs from the same content run alone in a fresh process: '
-                   + _first_diff(cj, exp['json']))
+            self.Vref(prop, cls, f'{entry}_json', 'the JSON next to the report differs from the same content run alone in a fresh process: '
+                      + _first_diff(cj, exp['json']), kd, eff, 'json', sha(cj))
         self.result_digest.update(sha(cj).encode())
         try:
             jobj = json.loads(raw)
